@@ -6,7 +6,7 @@ from typing import List, Optional, Dict, Set, Tuple
 from ..model import Model, FuncInfo, ClassInfo, own_nodes, norm_stmt, AnalysisError, AnchorError, \
     enclosing_function, enclosing_stmt, parent, ancestors
 from ..report import RuleResult
-from ..flow import function_defs, names_loaded, def_use_closure, stmt_defs, free_names_of_def
+from ..flow import function_defs, names_loaded, def_use_closure, stmt_defs, free_names_of_def, origins
 from ..callgraph import resolve_call, lookup_local_function
 
 EXPECTED_CLASSES = {"solve_torchfcn", "symeig_torchfcn", "degen_symeig", "_RootFinder", "_SolveIVP",
@@ -1044,13 +1044,24 @@ def ac12_saved_output_identity(fc: FnCls, R: RuleResult) -> int:
             saved += [a.id for a in c.args if isinstance(a, ast.Name) and a.id not in params]
     saved = sorted(set(saved))
     rets = [r for r in own_nodes(fw.node) if isinstance(r, ast.Return) and r.value is not None]
+    fdefs = function_defs(fw.node)
+
+    def is_same(e, nm):
+        """the bare name, or a plain alias of it"""
+        if not isinstance(e, ast.Name):
+            return False
+        if e.id == nm:
+            return True
+        os_ = origins(e, fdefs)
+        return bool(os_) and all(isinstance(o, ast.Name) and o.id == nm for o in os_) or \
+            (len(fdefs.get(e.id, [])) == 1 and isinstance(fdefs[e.id][0], ast.Name) and fdefs[e.id][0].id == nm)
     n = 0
     for nm in saved:
         n += 1
         bad = None
         for r in rets:
             elts = r.value.elts if isinstance(r.value, ast.Tuple) else [r.value]
-            bare = any(isinstance(e, ast.Name) and e.id == nm for e in elts)
+            bare = any(is_same(e, nm) for e in elts)
             derived = [e for e in elts if not isinstance(e, ast.Name) and any(isinstance(x, ast.Name) and x.id == nm for x in ast.walk(e))]
             if derived or not bare:
                 bad = (r, derived)
